@@ -1,0 +1,19 @@
+//go:build verif
+
+// Machine-checked contracts for govc (see /verif/DESIGN.md). Comments only;
+// compiled only with the build tag "verif".
+
+package proxy
+
+// C01 (proxy): the request is forwarded (ReverseProxy.ServeHTTP) only when no pipeline error is
+// recorded and an upstream is defined.
+//@ func (*requestContext).Finalize
+//@   props C01
+//@   ensures old(r.RequestContext.err) != nil ==> ret0 == old(r.RequestContext.err) && rproxy.n == old(rproxy.n)
+//@   ensures old(r.RequestContext.err) == nil && upstream == nil ==> ret0 != nil && rproxy.n == old(rproxy.n)
+//@   ensures old(r.RequestContext.err) == nil && upstream != nil ==> rproxy.n == old(rproxy.n) + 1
+
+// C12: a failed upstream exchange is a communication error (502), whatever the cause
+//@ func (*requestContext).Finalize$1
+//@   props C12
+//@   ensures (*errHolder).err != nil && Is((*errHolder).err, heimdall.ErrCommunication)
